@@ -275,6 +275,7 @@ theorem scopeOk_norecv (n : Bytes) (p rs : GoFields) (b : List Stmt) (e : List B
 
 theorem declScope_func (g : Func) : Decl.scopeOk (.func g) = g.scopeOk := rfl
 theorem declScope_type (n : Bytes) (t : GoTy) : Decl.scopeOk (.type n t) = true := rfl
+theorem declScope_alias (n : Bytes) (t : GoTy) : Decl.scopeOk (.alias n t) = true := rfl
 theorem declScope_iface (n : Bytes) (ms : List IfaceMethod) : Decl.scopeOk (.iface n ms) = true := rfl
 
 /-! ## per view -/
@@ -284,7 +285,7 @@ theorem aliasView_scope (m : Member) (l : List Decl) (hl : aliasView m = some l)
   | alias n d ty =>
     simp only [aliasView, Option.map_eq_some_iff] at hl
     obtain ⟨g, _, rfl⟩ := hl
-    rfl
+    cases isAliasDecl ty <;> rfl
   | method => simp [aliasView] at hl; subst hl; rfl
   | error => simp [aliasView] at hl; subst hl; rfl
 
